@@ -83,7 +83,7 @@ def subnodes(node):
                     yield x
 
 
-END_TOKEN = re.compile(r'(?i)end\s+(if|for|while)\Z')
+END_TOKEN = re.compile(r"(?i)(end\s+(if|for|while)|'[^']*')\Z")     # last tokens that may themselves span lines
 
 
 def self_consistent(root, text, case):
@@ -304,4 +304,6 @@ def replay(case):
     if 'tape' in case:
         positions_case(case)
     else:
-        parse_total(case['text'], case)
+        out, root = parse_total(case['text'], case)
+        if out == 'ok':
+            self_consistent(root, case['text'], case)
